@@ -201,6 +201,7 @@ TreesSmall ==
   IF Scope \notin {"c01","c02"} THEN {} ELSE
   LeavesRich \cup Pairs \cup ReplOverLeaf1 \cup ReplOverLeaf2
   \cup ReplOverPair \cup Wrapped \cup ReplThenSibling \cup ReplPairThenSibling \cup ManyPieces
+  \cup ResliceTrees
 
 (* binary and multi-byte leaves for the content-view scope                  *)
 BinLeaves ==
